@@ -20,7 +20,7 @@ ASSUMPTIONS = [
 ]
 TRUSTED = ["UFOs are written with fontTools.ufoLib directly; the GLIF scanners of ufoLib (getUnicodes, getComponentReferences, "
            "getImageReferences) and defcon's _fetchHasOutlineData are exercised, not modelled"]
-JUDGED = ("keys", "comps", "images", "outlines", "uni", "saved")
+JUDGED = ("keys", "comps", "images", "outlines", "uni", "saved", "bounds")
 PROP = "C07"
 
 
@@ -28,10 +28,17 @@ MODES = ["inplace", "inplace", "new", "overufo"]
 PARTS = ["info", "kerning", "groups", "features", "lib"]
 
 
+# renames also onto names that are present (the glyph there is replaced), the single-value unicode setter, read-modify-
+# write on the list the unicodes getter hands out, reloads of glyphs that have not been read, the bounds of glyphs (of
+# composites above all: they follow the base glyph) and, in a quarter of the groups, "ask, edit what the answer depends on,
+# ask again" for the bounds of a composite
+OPTS = dict(rename_onto_rate=0.3, setter_rate=0.1, via_rate=0.15, lookup_rate=0.3, bounds_rate=0.7, scenario_rate=0.25)
+
+
 def generate(rng, tier):
     groups, maxops = (150, 14) if tier == "quick" else (4000, 30)
     for _ in range(groups):
-        for c in lc.gen_group(rng, maxops, uni_weight=1.0, incoherent_rate=0.3):
+        for c in lc.gen_group(rng, maxops, uni_weight=1.0, incoherent_rate=0.3, opts=OPTS):
             yield c
     # whole fonts (info, kerning, groups, features, lib, images, data, layers, glyph structure): one content and one
     # edit/save history, run with nothing read beforehand, with everything read beforehand, with a random subset read, and
